@@ -70,6 +70,15 @@ def knee_policy(**kw):
     return p
 
 
+def ratio_is_wcag(project, chk, r1="F1", r2="F2", r3="F3"):
+    """The contrast function is the WCAG 2 ratio (also used by C01/C02 as their discharged assumption)."""
+    C = "cm_colors.core.contrast"
+    V = "cm_colors.core.conversions"
+    audit(project, chk, r1, f"{V}.srgb_to_linear", REF, "lin", knee_policy(var_map={"c": "channel"}), "the sRGB transfer function")
+    audit(project, chk, r2, f"{C}.calculate_relative_luminance", REF, "lum", knee_policy(), "WCAG relative luminance")
+    audit(project, chk, r3, f"{C}.calculate_contrast_ratio", REF, "ratio", knee_policy(var_map={"a": "text_rgb", "b": "bg_rgb"}), "the WCAG contrast ratio")
+
+
 def run(project, chk):
     chk.rule("F1", "srgb_to_linear is the sRGB two-piece curve: c/12.92 below the knee, ((c+0.055)/1.055)^2.4 above")
     chk.rule("F2", "calculate_relative_luminance = 0.2126 lin(R/255) + 0.7152 lin(G/255) + 0.0722 lin(B/255), each weight bound to its channel")
@@ -81,9 +90,7 @@ def run(project, chk):
                         "'21 only for black on white' (a numeric statement about the luminance range)"]
     C = "cm_colors.core.contrast"
     V = "cm_colors.core.conversions"
-    audit(project, chk, "F1", f"{V}.srgb_to_linear", REF, "lin", knee_policy(var_map={"c": "channel"}), "the sRGB transfer function")
-    audit(project, chk, "F2", f"{C}.calculate_relative_luminance", REF, "lum", knee_policy(), "WCAG relative luminance")
-    audit(project, chk, "F3", f"{C}.calculate_contrast_ratio", REF, "ratio", knee_policy(var_map={"a": "text_rgb", "b": "bg_rgb"}), "the WCAG contrast ratio")
+    ratio_is_wcag(project, chk, "F1", "F2", "F3")
     audit(project, chk, "F4", f"{C}.get_contrast_level", REF, "level", Policy(var_map={"r": "contrast_ratio"}), "the WCAG level thresholds", inline=False)
     audit(project, chk, "F4", f"{C}.get_wcag_level", REF, "wcag", knee_policy(var_map={"a": "text_rgb", "b": "bg_rgb"}), "level(ratio(text, bg), large)")
 
